@@ -465,7 +465,7 @@ func expandSeq(s string) []string {
 func mustCallOnEveryPath(f *ssa.Function, suffix string) bool {
 	_, reach := findPath(pathQuery{fn: f, target: func(in ssa.Instruction) bool {
 		r, ok := in.(*ssa.Return)
-		return ok && !isErrorReturn(f, r)
+		return ok && !isErrorReturn(f, r) && !isErrorCodeReturn(r)
 	},
 		blocker: func(in ssa.Instruction) bool {
 			ci, ok := in.(ssa.CallInstruction)
@@ -481,4 +481,58 @@ func mustCallOnEveryPath(f *ssa.Function, suffix string) bool {
 			return strings.HasSuffix(name, suffix)
 		}, edgeBlock: constFeasible})
 	return !reach
+}
+
+// isErrorCodeReturn: the function reports failure through a *types.ErrorCode
+// result and this return hands back a non-nil one.
+func isErrorCodeReturn(r *ssa.Return) bool {
+	res := retResults(r)
+	if len(res) == 0 {
+		return false
+	}
+	v := res[len(res)-1]
+	if !strings.HasSuffix(typeStr(v.Type()), "types.ErrorCode") {
+		return false
+	}
+	if _, ok := v.Type().Underlying().(*types.Pointer); !ok {
+		return false
+	}
+	var nonNil func(v ssa.Value, d int) bool
+	nonNil = func(v ssa.Value, d int) bool {
+		if d > 6 {
+			return false
+		}
+		switch x := v.(type) {
+		case *ssa.Const:
+			return !x.IsNil()
+		case *ssa.Alloc:
+			return true
+		case *ssa.Phi:
+			for _, e := range x.Edges {
+				if !nonNil(e, d+1) {
+					return false
+				}
+			}
+			return true
+		}
+		return false
+	}
+	if nonNil(v, 0) {
+		return true
+	}
+	// err returned right after `if err != nil`
+	f := r.Parent()
+	pass := condEdges(f, func(cv ssa.Value) (bool, bool) {
+		b, ok := cv.(*ssa.BinOp)
+		if !ok {
+			return false, false
+		}
+		if b.X == v || b.Y == v {
+			if k, isK := b.Y.(*ssa.Const); isK && k.IsNil() || func() bool { k2, isK2 := b.X.(*ssa.Const); return isK2 && k2.IsNil() }() {
+				return true, b.Op == token.NEQ
+			}
+		}
+		return false, false
+	})
+	return len(pass) > 0 && guardedBy(f, r, pass)
 }
